@@ -23,7 +23,8 @@ Open Scope Z_scope.
 Record cfg := mkCfg {
   deadlines : bool;         (* ReadTimeout set: the loop calls c.SetReadDeadline before waiting for a request and again after its first byte;
                                the call fails on a closed connection (IdleTimeout alone: the same from the second request on) *)
-  closeOnShutdown : bool    (* Server.CloseOnShutdown *)
+  closeOnShutdown : bool;   (* Server.CloseOnShutdown *)
+  reduceMem : bool          (* Server.ReduceMemoryUsage: the writer is flushed (and released) after every response, also with a pipelined request buffered *)
 }.
 
 (* where a connection thread is *)
@@ -339,7 +340,7 @@ Definition step (cf : cfg) (s : st) (l : label) : option st :=
           end
       | None => None
       end
-  | LWrite c rc =>            (* writeResponse into the writer; Flush unless another request is buffered; break on Connection: close
+  | LWrite c rc =>            (* writeResponse into the writer; Flush unless another request is buffered (always with ReduceMemoryUsage); break on Connection: close
                                  rc: the request or the handler asked for Connection: close *)
       match nth_error (conns s) c with
       | Some r =>
@@ -347,7 +348,7 @@ Definition step (cf : cfg) (s : st) (l : label) : option st :=
           | CWrite =>
               let cclose := rc || (closeOnShutdown cf && stop s) in
               let u := unflushed r + 1 in
-              if (buffered r <=? 0) || cclose || hijack r then
+              if (buffered r <=? 0) || cclose || hijack r || reduceMem cf then
                 (* Flush (a hijack flushes explicitly before starting the hijack handler) *)
                 if srvClosed r || cliClosed r then
                   Some (set_conns s (upd (conns s) c
